@@ -1,4 +1,6 @@
 import DendroModel.Theory.C16Cols
+import DendroModel.Theory.C16Poly
+import DendroModel.Theory.C16Gap
 import DendroModel.Theory.C16Sym
 /-! C16 — property theorems about `parsimony` (= `runNodes` over the post-order with the node-attribute store), the
 function the driver `drv_c16` runs.
@@ -79,6 +81,35 @@ def refHist (t : T) : Nat → List Op → List Obs
 inductive Below : T → T → Prop
   | child {v t : T} : v ∈ t.cs → Below v t
   | deeper {v w t : T} : Below w t → v ∈ w.cs → Below v t
+
+/-- `mM` is the matrix `mF` re-read with gaps as missing data: same taxa, and in every column `c` (whose proper states are
+    `qs[c]`) the sets are related by `GapRel` -/
+def GapRelM (n : Nat) (qs : List SS) (mF mM : Matrix) : Prop :=
+  ∀ k rowF, getAttr mF k = some rowF → ∃ rowM, getAttr mM k = some rowM ∧
+    ∀ c, c < n → GapRel (qs.getD c 0) (rowF.getD c 0) (rowM.getD c 0)
+
+/-- the proper (non-gap) states of a fixed alphabet: what `?` denotes with gaps as missing data -/
+def properStates (alph : String) : SS :=
+  match C16Alphabets.alphabets.find? (fun a => a.1 == alph) with
+  | none => 0
+  | some (_, tab) =>
+    match tab.find? (fun e => e.1 == 63) with
+    | none => 0
+    | some (_, _, miss) => miss
+
+/-- Boolean form of `GapRel` on masks -/
+def gapOkB (q F M : SS) : Bool := ((F &&& q) &&& M == F &&& q) && (F &&& q == F || M &&& q == q)
+
+/-- the proper (non-gap) states of a column's alphabet -/
+def qOfCol : ColAlph → SS
+  | .table name => properStates name
+  | .custom _ fund _ => (1 <<< fund.length) - 1
+
+/-- two rows related column by column -/
+def RowRel : List SS → Row → Row → Prop
+  | [], [], [] => True
+  | q :: qs, f :: fs, m :: ms => GapRel q f m ∧ RowRel qs fs ms
+  | _, _, _ => False
 
 namespace Aux
 
@@ -171,6 +202,38 @@ theorem ws_getD {m : Matrix} {n : Nat} (hn : nchar m = n) (w : Option (List Nat)
   cases w with
   | none => simp only [wt, weightsOf]; exact getD_replicate 1 0 _ c (by omega)
   | some l => simp [wt, weightsOf]
+
+/-- everything about one call, from the character-wise specification of `accT` on this tree -/
+theorem call_spec_gen {m : Matrix} {n : Nat} {t : T} {bv : BV} (w : Option (List Nat))
+    (hspec : SpecT m (weightsOf m w) n t bv) (hn : nchar m = n) (hid : (ids t).Nodup) (attrs : Attrs) :
+    ∃ st, parsimony m w attrs t = .ok st ∧ st.bychar.length = n ∧
+      (∀ c, c < n → st.bychar.getD c 0 = wt w c * (fitch (col c bv)).2) ∧
+      st.score = sumL st.bychar := by
+  have hz : (List.replicate (nchar m) 0).length = n := by simp [hn]
+  obtain ⟨row, sc, bc, hacc, _, e2, e3, e4⟩ := hspec 0 _ hz
+  obtain ⟨st, hp, _, hs, hb, _⟩ :=
+    (run_T m (weightsOf m w) t hid { attrs := attrs, score := 0, bychar := List.replicate (nchar m) 0 }).2 row sc bc hacc
+  refine ⟨st, by simpa [parsimony] using hp, by rw [hb]; exact e2, ?_, ?_⟩
+  · intro c hc
+    rw [hb, (e4 c hc).2, ws_getD hn w c hc, getD_replicate 0 0 _ c (by omega)]
+    omega
+  · rw [hs, hb]
+    rw [sumL_replicate_zero] at e3
+    omega
+
+theorem goodRows_nonempty {n : Nat} : ∀ (bv : BV), GoodRows n bv → ∀ c, c < n → NonEmptyLeaves (col c bv)
+  | .leaf row, h, c, hc => by
+    simp only [col, Bt.map, Bt.All] at h ⊢
+    exact h.2 _ (getD_mem row c (by omega))
+  | .node l r, h, c, hc => ⟨goodRows_nonempty l h.1 c hc, goodRows_nonempty r h.2 c hc⟩
+
+theorem nchar_of_rect {m : Matrix} {n : Nat} (hm : RectM m n) (h0 : m ≠ []) : nchar m = n := by
+  cases m with
+  | nil => exact absurd rfl h0
+  | cons e rest =>
+    obtain ⟨k, r⟩ := e
+    have := (hm k r (by simp [getAttr])).1
+    simpa [nchar] using this
 
 /-- everything about one call: success, per-character values, total -/
 theorem call_spec {m : Matrix} {n : Nat} {t : T} {bv : BV} (hv : ViewU m t bv) (hm : RectM m n)
@@ -354,6 +417,202 @@ theorem symbolSet_nonzero (htab : ∀ a, a ∈ C16Alphabets.alphabets → ∀ e,
       cases g
       · simpa using this.1
       · simpa using this.2
+
+theorem one_shl_ne_zero (i : Nat) : (1 <<< i : Nat) ≠ 0 := by
+  rw [Nat.one_shiftLeft]; exact Nat.ne_of_gt (Nat.two_pow_pos i)
+
+theorem all_ne_zero {k : Nat} (hk : k ≠ 0) : ((1 <<< k : Nat) - 1) ≠ 0 := by
+  rw [Nat.one_shiftLeft]
+  have := Nat.one_lt_two_pow hk
+  omega
+
+theorem fundMask_nonzero (fund : List Char) : ∀ (ms : List Char) (v : SS), ms ≠ [] → fundMask fund ms = some v → v ≠ 0
+  | [], _, h, _ => absurd rfl h
+  | c :: cs, v, _, h => by
+    simp only [fundMask] at h
+    cases hi : idxOf c fund with
+    | none => simp [hi] at h
+    | some i =>
+      cases hm : fundMask fund cs with
+      | none => simp [hi, hm] at h
+      | some mk =>
+        simp only [hi, hm, Option.some.injEq] at h
+        subst h
+        exact or_ne_zero_left (one_shl_ne_zero i)
+
+theorem customSet_nonzero (gm : Bool) (fund : List Char) (amb : List (Char × List Char))
+    (hwf : (ColAlph.custom gm fund amb).wf = true) (g : Bool) (c : Char) (v : SS)
+    (h : customSet gm fund amb g c = some v) : v ≠ 0 := by
+  simp only [ColAlph.wf, Bool.and_eq_true, Bool.not_eq_true', List.all_eq_true] at hwf
+  have hk : fund.length ≠ 0 := by
+    intro h0
+    have : fund = [] := List.eq_nil_of_length_eq_zero h0
+    simp [this] at hwf
+  simp only [customSet] at h
+  split at h
+  · cases h
+    cases g
+    · exact one_shl_ne_zero fund.length
+    · simpa using all_ne_zero hk
+  · split at h
+    · cases h
+      cases g
+      · exact or_ne_zero_left (all_ne_zero hk)
+      · simpa using all_ne_zero hk
+    · split at h
+      · cases h; exact one_shl_ne_zero _
+      · split at h
+        · rename_i sym ms hf
+          have hmem := List.mem_of_find?_eq_some hf
+          have hne : ms ≠ [] := by
+            have := hwf.2 _ hmem
+            intro e; simp [e] at this
+          exact fundMask_nonzero fund ms v hne h
+        · cases h
+
+theorem sumTo_add : ∀ (n : Nat) (f g : Nat → Nat), sumTo n (fun c => f c + g c) = sumTo n f + sumTo n g
+  | 0, _, _ => by simp [sumTo]
+  | n + 1, f, g => by
+    have ih := sumTo_add n (fun c => f (c + 1)) (fun c => g (c + 1))
+    simp only [sumTo] at ih ⊢
+    omega
+
+theorem sumTo_mul : ∀ (n a : Nat) (f : Nat → Nat), sumTo n (fun c => a * f c) = a * sumTo n f
+  | 0, _, _ => by simp [sumTo]
+  | n + 1, a, f => by
+    have ih := sumTo_mul n a (fun c => f (c + 1))
+    simp only [sumTo] at ih ⊢
+    rw [ih, Nat.mul_add]
+
+theorem getD_map_mul (a : Nat) : ∀ (l : List Nat) (c : Nat), (l.map (fun x => a * x)).getD c 0 = a * l.getD c 0
+  | [], c => by simp
+  | x :: xs, 0 => by simp
+  | x :: xs, c + 1 => by simpa using getD_map_mul a xs c
+
+theorem gapRel_of_gapOkB {q F M : SS} (h : gapOkB q F M = true) : GapRel q F M := by
+  simp only [gapOkB, Bool.and_eq_true, Bool.or_eq_true, beq_iff_eq] at h
+  obtain ⟨h1, h2⟩ := h
+  intro s hs
+  constructor
+  · intro hq
+    have : ((F &&& q) &&& M).testBit s = (F &&& q).testBit s := by rw [h1]
+    simpa [Nat.testBit_and, hs, hq] using this
+  · intro hq p hp
+    rcases h2 with h2 | h2
+    · have : (F &&& q).testBit s = F.testBit s := by rw [h2]
+      simp [Nat.testBit_and, hs, hq] at this
+    · have : (M &&& q).testBit p = q.testBit p := by rw [h2]
+      simpa [Nat.testBit_and, hp] using this
+
+theorem view_gap {n : Nat} {qs : List SS} {mF mM : Matrix} (hrel : GapRelM n qs mF mM) {t : T} {bvF : BV}
+    (hv : View mF t bvF) : ∃ bvM, View mM t bvM ∧ ∀ c, c < n → RelB (qs.getD c 0) (col c bvF) (col c bvM) := by
+  induction hv with
+  | @leaf i x l s row h =>
+    cases x with
+    | none => simp [lookupRow] at h
+    | some k =>
+      obtain ⟨rowM, hM, hg⟩ := hrel k row (by simpa [lookupRow] using h)
+      exact ⟨.leaf rowM, .leaf (by simpa [lookupRow] using hM), fun c hc => .leaf (hg c hc)⟩
+  | node _ _ iha ihb =>
+    obtain ⟨ba, va, ra⟩ := iha
+    obtain ⟨bb, vb, rb⟩ := ihb
+    exact ⟨.node ba bb, .node va vb, fun c hc => .node (ra c hc) (rb c hc)⟩
+
+theorem viewU_gap {n : Nat} {qs : List SS} {mF mM : Matrix} (hrel : GapRelM n qs mF mM) {t : T} {bvF : BV}
+    (hv : ViewU mF t bvF) : ∃ bvM, ViewU mM t bvM ∧ ∀ c, c < n → RelB (qs.getD c 0) (col c bvF) (col c bvM) := by
+  cases hv with
+  | rooted h =>
+    obtain ⟨b, v, r⟩ := view_gap hrel h
+    exact ⟨b, .rooted v, r⟩
+  | unrooted ha hb hc =>
+    obtain ⟨b1, v1, r1⟩ := view_gap hrel ha
+    obtain ⟨b2, v2, r2⟩ := view_gap hrel hb
+    obtain ⟨b3, v3, r3⟩ := view_gap hrel hc
+    exact ⟨_, .unrooted v1 v2 v3, fun c hc' => .node (.node (r1 c hc') (r2 c hc')) (r3 c hc')⟩
+
+theorem idxOf_lt (c : Char) : ∀ (fund : List Char) (i : Nat), idxOf c fund = some i → i < fund.length
+  | [], _, h => by simp [idxOf] at h
+  | x :: xs, i, h => by
+    simp only [idxOf] at h
+    split at h
+    · cases h; simp
+    · cases hr : idxOf c xs with
+      | none => simp [hr] at h
+      | some j =>
+        simp only [hr, Option.map_some, Option.some.injEq] at h
+        subst h
+        have := idxOf_lt c xs j hr
+        simp; omega
+
+theorem testBit_all {k s : Nat} : ((1 <<< k : Nat) - 1).testBit s = decide (s < k) := by
+  rw [Nat.one_shiftLeft]; exact Nat.testBit_two_pow_sub_one k s
+
+theorem testBit_shl {i s : Nat} : (1 <<< i : Nat).testBit s = decide (i = s) := by
+  rw [Nat.one_shiftLeft]; exact Nat.testBit_two_pow
+
+theorem fundMask_sub (fund : List Char) : ∀ (ms : List Char) (v : SS), fundMask fund ms = some v →
+    ∀ s, v.testBit s = true → s < fund.length
+  | [], v, h, s, hs => by
+    simp only [fundMask, Option.some.injEq] at h
+    subst h; simp at hs
+  | c :: cs, v, h, s, hs => by
+    simp only [fundMask] at h
+    cases hi : idxOf c fund with
+    | none => simp [hi] at h
+    | some i =>
+      cases hm : fundMask fund cs with
+      | none => simp [hi, hm] at h
+      | some mk =>
+        simp only [hi, hm, Option.some.injEq] at h
+        subst h
+        simp only [Nat.testBit_or, Bool.or_eq_true, testBit_shl, decide_eq_true_eq] at hs
+        rcases hs with rfl | hs
+        · exact idxOf_lt c fund _ hi
+        · exact fundMask_sub fund cs mk hm s hs
+
+/-- a set of proper states only is related to itself -/
+theorem gapRel_self {k : Nat} {F : SS} (h : ∀ s, F.testBit s = true → s < k) : GapRel ((1 <<< k) - 1) F F := by
+  intro s hs
+  refine ⟨fun _ => hs, ?_⟩
+  intro hq
+  have := h s hs
+  simp [testBit_all, this] at hq
+
+theorem customSet_gapRel (gm : Bool) (fund : List Char) (amb : List (Char × List Char)) (c : Char) (F : SS)
+    (h : customSet gm fund amb false c = some F) :
+    ∃ M, customSet gm fund amb true c = some M ∧ GapRel ((1 <<< fund.length) - 1) F M := by
+  simp only [customSet] at h ⊢
+  split at h
+  · rename_i hc
+    simp only [Bool.false_eq_true, if_false, Option.some.injEq] at h
+    subst h
+    refine ⟨(1 <<< fund.length) - 1, by simp [hc], ?_⟩
+    intro s hs
+    simp only [testBit_shl, decide_eq_true_eq] at hs
+    subst hs
+    exact ⟨fun hq => by simp [testBit_all] at hq, fun _ p hp => hp⟩
+  · rename_i hc
+    split at h
+    · rename_i hc2
+      simp only [Bool.false_eq_true, if_false, Option.some.injEq] at h
+      subst h
+      refine ⟨(1 <<< fund.length) - 1, by simp [hc, hc2], ?_⟩
+      intro s _
+      exact ⟨fun hq => hq, fun _ p hp => hp⟩
+    · rename_i hc2
+      refine ⟨F, by simpa [hc, hc2] using h, ?_⟩
+      apply gapRel_self
+      split at h
+      · rename_i i hi
+        cases h
+        intro s hs
+        simp only [testBit_shl, decide_eq_true_eq] at hs
+        subst hs
+        exact idxOf_lt c fund _ hi
+      · split at h
+        · exact fundMask_sub fund _ F h
+        · cases h
+
 
 end Aux
 open Aux
@@ -605,6 +864,336 @@ theorem rowOfSymbols_nonzero (alph : String) (g : Bool) : ∀ (syms : List Char)
         · exact symbolSet_nonzero table_nonzero alph g c _ h1
         · exact rowOfSymbols_nonzero alph g cs vs h2 v hv'
 
+/-- **No symbol of any column alphabet denotes the empty set** (clause a, per-column alphabets): fixed alphabets by the generated
+tables, custom alphabets (at least one fundamental state, no memberless ambiguity code — the driver refuses others) by the rules
+of `customSet`, in both gap modes. -/
+theorem colSymbolSet_nonzero (col : ColAlph) (hwf : col.wf = true) (g : Bool) (c : Char) (v : SS)
+    (h : colSymbolSet col g c = some v) : v ≠ 0 := by
+  cases col with
+  | table name => exact symbolSet_nonzero table_nonzero name g c v h
+  | custom gm fund amb => exact customSet_nonzero gm fund amb hwf g c v h
+
+/-- every row built for a matrix with per-column alphabets is free of empty sets and has one set per column -/
+theorem rowOfCols_nonzero : ∀ (cols : List ColAlph) (g : Bool) (syms : List Char) (row : Row),
+    (∀ col, col ∈ cols → col.wf = true) → rowOfCols cols g syms = some row →
+    row.length = cols.length ∧ ∀ v, v ∈ row → v ≠ 0
+  | [], _, [], row, _, h => by
+    simp only [rowOfCols, Option.some.injEq] at h
+    subst h
+    exact ⟨rfl, fun v hv => by cases hv⟩
+  | col :: cols, g, c :: cs, row, hwf, h => by
+    simp only [rowOfCols] at h
+    cases h1 : colSymbolSet col g c with
+    | none => simp [h1] at h
+    | some v1 =>
+      cases h2 : rowOfCols cols g cs with
+      | none => simp [h1, h2] at h
+      | some vs =>
+        simp only [h1, h2, Option.some.injEq] at h
+        subst h
+        have ih := rowOfCols_nonzero cols g cs vs (fun col' hc => hwf col' (List.mem_cons_of_mem _ hc)) h2
+        refine ⟨by simp [ih.1], ?_⟩
+        intro v hv
+        rcases List.mem_cons.mp hv with rfl | hv'
+        · exact colSymbolSet_nonzero col (hwf col (List.mem_cons_self)) g c _ h1
+        · exact ih.2 v hv'
+  | [], _, _ :: _, _, _, h => by simp [rowOfCols] at h
+  | _ :: _, _, [], _, _, h => by simp [rowOfCols] at h
+
+/-- **The score is additive in the weight list** (clause a, "summed over characters with the given weights"): scoring with the
+position-wise sum of two weight lists gives the sum of the two scores and the position-wise sum of the per-character lists. -/
+theorem score_linear_add {m : Matrix} {n : Nat} {t : T} {bv : BV} (hv : ViewU m t bv) (hm : RectM m n)
+    (hid : (ids t).Nodup) (w1 w2 : List Nat) (h1 : w1.length = n) (h2 : w2.length = n) (attrs : Attrs) :
+    ∃ st st1 st2, parsimony m (some (addL w1 w2)) attrs t = .ok st ∧ parsimony m (some w1) attrs t = .ok st1 ∧
+      parsimony m (some w2) attrs t = .ok st2 ∧ st.score = st1.score + st2.score ∧
+      st.bychar = addL st1.bychar st2.bychar := by
+  obtain ⟨al, _, ag⟩ := addL_spec n w1 w2 h1 h2
+  obtain ⟨st, hp, hl, hb, hs⟩ := score_spec hv hm hid (some (addL w1 w2)) al attrs
+  obtain ⟨st1, hp1, hl1, hb1, hs1⟩ := score_spec hv hm hid (some w1) h1 attrs
+  obtain ⟨st2, hp2, hl2, hb2, hs2⟩ := score_spec hv hm hid (some w2) h2 attrs
+  obtain ⟨bl, _, bg⟩ := addL_spec n st1.bychar st2.bychar hl1 hl2
+  refine ⟨st, st1, st2, hp, hp1, hp2, ?_, ?_⟩
+  · rw [hs, hs1, hs2, ← sumTo_add]
+    apply sumTo_congr
+    intro c hc
+    simp only [wt, ag c hc, Nat.add_mul]
+  · apply ext_getD n _ _ hl bl
+    intro c hc
+    rw [hb c hc, bg c hc, hb1 c hc, hb2 c hc]
+    simp only [wt, ag c hc, Nat.add_mul]
+
+/-- **The score is homogeneous in the weight list**: multiplying every weight by `a` multiplies the score and every
+per-character entry by `a`. -/
+theorem score_linear_smul {m : Matrix} {n : Nat} {t : T} {bv : BV} (hv : ViewU m t bv) (hm : RectM m n)
+    (hid : (ids t).Nodup) (a : Nat) (w : List Nat) (hw : w.length = n) (attrs : Attrs) :
+    ∃ st st1, parsimony m (some (w.map (fun x => a * x))) attrs t = .ok st ∧ parsimony m (some w) attrs t = .ok st1 ∧
+      st.score = a * st1.score ∧ st.bychar = st1.bychar.map (fun x => a * x) := by
+  have hw' : (w.map (fun x => a * x)).length = n := by simpa using hw
+  obtain ⟨st, hp, hl, hb, hs⟩ := score_spec hv hm hid (some (w.map (fun x => a * x))) hw' attrs
+  obtain ⟨st1, hp1, hl1, hb1, hs1⟩ := score_spec hv hm hid (some w) hw attrs
+  refine ⟨st, st1, hp, hp1, ?_, ?_⟩
+  · rw [hs, hs1, ← sumTo_mul]
+    apply sumTo_congr
+    intro c _
+    simp only [wt, getD_map_mul, Nat.mul_assoc]
+  · apply ext_getD n _ _ hl (by simpa using hl1)
+    intro c hc
+    rw [hb c hc, getD_map_mul, hb1 c hc]
+    simp only [wt, getD_map_mul, Nat.mul_assoc]
+
+/-- **`weights=None` is the all-ones weight list.** -/
+theorem score_unweighted {m : Matrix} {n : Nat} {t : T} {bv : BV} (hv : ViewU m t bv) (hm : RectM m n)
+    (hid : (ids t).Nodup) (attrs : Attrs) :
+    ∃ st st1, parsimony m none attrs t = .ok st ∧ parsimony m (some (List.replicate n 1)) attrs t = .ok st1 ∧
+      st.score = st1.score ∧ st.bychar = st1.bychar := by
+  obtain ⟨st, hp, hl, hb, hs⟩ := score_spec hv hm hid none trivial attrs
+  obtain ⟨st1, hp1, hl1, hb1, hs1⟩ := score_spec hv hm hid (some (List.replicate n 1)) (by simp [WOk]) attrs
+  have e : ∀ c, c < n → wt none c = wt (some (List.replicate n 1)) c := by
+    intro c hc
+    simp only [wt]
+    exact (getD_replicate 1 0 n c hc).symm
+  refine ⟨st, st1, hp, hp1, ?_, ?_⟩
+  · rw [hs, hs1]
+    apply sumTo_congr
+    intro c hc
+    rw [e c hc]
+  · apply ext_getD n _ _ hl hl1
+    intro c hc
+    rw [hb c hc, hb1 c hc, e c hc]
+
+/-- **Polytomies: the fold is iterated binary Fitch** (mechanism "sequential over extra children").  `toBV m t = some bv` reads any
+tree without unary nodes whose leaves all have rows as the binary tree of rows in which every node with children
+`c0, c1, …, ck` is resolved into the ladder `(((c0, c1), c2), …, ck)`.  On every such tree the call succeeds, whatever attributes the
+nodes carry; per-character entry `c` is the weight of `c` times the Fitch count of character `c` of that resolution, and the score
+is their sum.  (`View`/`ViewU` trees are the special cases without / with only a basal polytomy: `toBV_of_viewU`.) -/
+theorem polytomy_score_spec {m : Matrix} {n : Nat} {t : T} {bv : BV} (h : toBV m t = some bv) (hm : RectM m n)
+    (hid : (ids t).Nodup) (w : Option (List Nat)) (hw : WOk w n) (attrs : Attrs) :
+    ∃ st, parsimony m w attrs t = .ok st ∧ st.bychar.length = n ∧
+      (∀ c, c < n → st.bychar.getD c 0 = wt w c * (fitch (col c bv)).2) ∧
+      st.score = sumTo n (fun c => wt w c * (fitch (col c bv)).2) := by
+  have hnc : ∀ ws : List Nat, ws.length = n → GoodBV m ws n t bv := fun ws hws => good_T hws hm t bv h
+  have hn : nchar m = n := by
+    obtain ⟨_, _, h0⟩ := hnc (List.replicate n 0) (by simp)
+    exact nchar_of_rect hm h0
+  obtain ⟨hspec, _, _⟩ := hnc (weightsOf m w) (ws_length hn w hw)
+  obtain ⟨st, hp, hl, hb, hs⟩ := call_spec_gen w hspec hn hid attrs
+  refine ⟨st, hp, hl, hb, ?_⟩
+  rw [hs, sumL_eq_sumTo, hl]
+  exact sumTo_congr n _ _ hb
+
+/-- **Minimality with polytomies** (clause a, beyond the statement's bifurcating trees).  The score the fold defines on a tree with
+polytomies is the minimum weighted number of changes over all families of assignments of states to the nodes of its ladder
+resolution (a resolution has more nodes than the polytomy, so this is a lower bound of the polytomy's own minimum; for a basal
+trifurcation the two coincide, `score_minimal_unrooted`). -/
+theorem polytomy_score_minimal {m : Matrix} {n : Nat} {t : T} {bv : BV} (h : toBV m t = some bv) (hm : RectM m n)
+    (hid : (ids t).Nodup) (w : Option (List Nat)) (hw : WOk w n) (attrs : Attrs) :
+    ∃ st, parsimony m w attrs t = .ok st ∧
+      (∀ asg : Nat → A, (∀ c, c < n → Valid (col c bv) (asg c)) →
+        st.score ≤ sumTo n (fun c => wt w c * changes (asg c))) ∧
+      (∃ asg : Nat → A, (∀ c, c < n → Valid (col c bv) (asg c)) ∧
+        sumTo n (fun c => wt w c * changes (asg c)) = st.score) := by
+  obtain ⟨st, hp, _, _, hs⟩ := polytomy_score_spec h hm hid w hw attrs
+  have hne := goodRows_nonempty bv (good_T (ws := List.replicate n 0) (by simp) hm t bv h).2.1
+  refine ⟨st, hp, ?_, ?_⟩
+  · intro asg hval
+    rw [hs]
+    apply sumTo_le
+    intro c hc
+    exact Nat.mul_le_mul_left _ ((fitch_minimal (col c bv) (hne c hc)).1 (asg c) (hval c hc))
+  · have hex : ∀ c, ∃ a : A, c < n → Valid (col c bv) a ∧ changes a = (fitch (col c bv)).2 := by
+      intro c
+      by_cases hc : c < n
+      · obtain ⟨a, ha1, ha2⟩ := (fitch_minimal (col c bv) (hne c hc)).2
+        exact ⟨a, fun _ => ⟨ha1, ha2⟩⟩
+      · exact ⟨.leaf 0, fun h => absurd h hc⟩
+    refine ⟨fun c => Classical.choose (hex c), fun c hc => (Classical.choose_spec (hex c) hc).1, ?_⟩
+    rw [hs]
+    apply sumTo_congr
+    intro c hc
+    rw [(Classical.choose_spec (hex c) hc).2]
+
+/-- the trees of the statement are read by `toBV` as themselves -/
+theorem toBV_of_view {m : Matrix} {t : T} {bv : BV} (hv : View m t bv) : toBV m t = some bv := by
+  induction hv with
+  | leaf h => simp [toBV, toBVL, h]
+  | node _ _ iha ihb => simp [toBV, toBVL, iha, ihb, ladder]
+
+theorem toBV_of_viewU {m : Matrix} {t : T} {bv : BV} (hv : ViewU m t bv) : toBV m t = some bv := by
+  cases hv with
+  | rooted h => exact toBV_of_view h
+  | unrooted ha hb hc => simp [toBV, toBVL, toBV_of_view ha, toBV_of_view hb, toBV_of_view hc, ladder]
+
+/-- **Gaps as missing data never raise the score** (clause a, "gaps as missing data when so requested").  If `mM` is the matrix
+`mF` re-read with gaps as missing data (`GapRelM`: in every column the proper states of a set are kept, and a set containing the gap
+state becomes at least all proper states), then on the same tree the score and every per-character entry with `mM` are at most those
+with `mF`. -/
+theorem gaps_as_missing_monotone {n : Nat} {qs : List SS} {mF mM : Matrix} {t : T} {bvF : BV} (hv : ViewU mF t bvF)
+    (hmF : RectM mF n) (hmM : RectM mM n) (hrel : GapRelM n qs mF mM) (hq : ∀ c, c < n → qs.getD c 0 ≠ 0)
+    (hid : (ids t).Nodup) (w : Option (List Nat)) (hw : WOk w n) (attrs attrs' : Attrs) :
+    ∃ stF stM, parsimony mF w attrs t = .ok stF ∧ parsimony mM w attrs' t = .ok stM ∧
+      stM.score ≤ stF.score ∧ ∀ c, c < n → stM.bychar.getD c 0 ≤ stF.bychar.getD c 0 := by
+  obtain ⟨bvM, hvM, hr⟩ := viewU_gap hrel hv
+  obtain ⟨stF, hpF, _, hbF, hsF⟩ := score_spec hv hmF hid w hw attrs
+  obtain ⟨stM, hpM, _, hbM, hsM⟩ := score_spec hvM hmM hid w hw attrs'
+  have hle : ∀ c, c < n → (fitch (col c bvM)).2 ≤ (fitch (col c bvF)).2 := fun c hc =>
+    fitch_gap_mono (hr c hc) (hq c hc) ((viewU_rect hv hmF).2 c hc) ((viewU_rect hvM hmM).2 c hc)
+  refine ⟨stF, stM, hpF, hpM, ?_, ?_⟩
+  · rw [hsF, hsM]
+    exact sumTo_le n _ _ (fun c hc => Nat.mul_le_mul_left _ (hle c hc))
+  · intro c hc
+    rw [hbF c hc, hbM c hc]
+    exact Nat.mul_le_mul_left _ (hle c hc)
+
+/-- **The generated tables satisfy the gap relation** (whole finite table, by evaluation): in every fixed alphabet, for every
+symbol, the set with gaps as missing data is related by `GapRel` (proper states = what `?` denotes then) to the set with the gap
+as a state — so matrices built by `rowOfSymbols` from the same symbols in the two gap modes satisfy `GapRelM`. -/
+theorem table_gap_ok : C16Alphabets.alphabets.all (fun a =>
+    a.2.all (fun e => gapOkB (properStates a.1) e.2.1 e.2.2) && properStates a.1 != 0) = true := by decide
+
+theorem symbolSet_gapRel (alph : String) (c : Char) (F : SS) (h : symbolSet alph false c = some F) :
+    ∃ M, symbolSet alph true c = some M ∧ GapRel (properStates alph) F M := by
+  unfold symbolSet at h ⊢
+  cases ha : C16Alphabets.alphabets.find? (fun a => a.1 == alph) with
+  | none => simp [ha] at h
+  | some a =>
+    obtain ⟨nm, tab⟩ := a
+    simp only [ha] at h ⊢
+    cases he : tab.find? (fun e => e.1 == c.toNat) with
+    | none => simp [he] at h
+    | some e =>
+      obtain ⟨sym, full, miss⟩ := e
+      simp only [he, Bool.false_eq_true, if_false, Option.some.injEq] at h
+      subst h
+      refine ⟨miss, by simp, ?_⟩
+      have hmem := List.mem_of_find?_eq_some ha
+      have hemem := List.mem_of_find?_eq_some he
+      have hname : nm = alph := by
+        have := List.find?_some ha
+        simpa using this
+      have hall := table_gap_ok
+      rw [List.all_eq_true] at hall
+      have h1 := hall _ hmem
+      simp only [Bool.and_eq_true, List.all_eq_true] at h1
+      have h2 := h1.1 _ hemem
+      rw [← hname]
+      exact gapRel_of_gapOkB h2
+
+/-- **Every matrix the driver builds lies in the theorems' domain**: `matrixOf` from well-formed column alphabets yields rows of one
+length (the number of columns) without empty state sets, in both gap modes. -/
+theorem matrixOf_rectM (cols : List ColAlph) (g : Bool) (hwf : ∀ col, col ∈ cols → col.wf = true) :
+    ∀ (rows : List (Nat × List Char)) (m : Matrix), matrixOf cols g rows = some m → RectM m cols.length
+  | [], m, h => by
+    simp only [matrixOf, Option.some.injEq] at h
+    subst h
+    intro k row hk
+    simp [getAttr] at hk
+  | (b, cs) :: rest, m, h => by
+    simp only [matrixOf] at h
+    cases h1 : rowOfCols cols g cs with
+    | none => simp [h1] at h
+    | some r =>
+      cases h2 : matrixOf cols g rest with
+      | none => simp [h1, h2] at h
+      | some m' =>
+        simp only [h1, h2, Option.some.injEq] at h
+        subst h
+        intro k row hk
+        simp only [getAttr] at hk
+        by_cases hb : (b == k) = true
+        · simp only [hb, if_true, Option.some.injEq] at hk
+          subst hk
+          exact rowOfCols_nonzero cols g cs r hwf h1
+        · simp only [hb] at hk
+          exact matrixOf_rectM cols g hwf rest m' h2 k row hk
+
+namespace Aux
+
+theorem colSymbolSet_gapRel (col : ColAlph) (c : Char) (F : SS) (h : colSymbolSet col false c = some F) :
+    ∃ M, colSymbolSet col true c = some M ∧ GapRel (qOfCol col) F M := by
+  cases col with
+  | table name => exact symbolSet_gapRel name c F h
+  | custom gm fund amb => exact customSet_gapRel gm fund amb c F h
+
+theorem rowOfCols_gapRel : ∀ (cols : List ColAlph) (syms : List Char) (rF : Row), rowOfCols cols false syms = some rF →
+    ∃ rM, rowOfCols cols true syms = some rM ∧ RowRel (cols.map qOfCol) rF rM
+  | [], [], rF, h => by
+    simp only [rowOfCols, Option.some.injEq] at h
+    subst h
+    exact ⟨[], by simp [rowOfCols], by simp [RowRel]⟩
+  | col :: cols, c :: cs, rF, h => by
+    simp only [rowOfCols] at h
+    cases h1 : colSymbolSet col false c with
+    | none => simp [h1] at h
+    | some F =>
+      cases h2 : rowOfCols cols false cs with
+      | none => simp [h1, h2] at h
+      | some fs =>
+        simp only [h1, h2, Option.some.injEq] at h
+        subst h
+        obtain ⟨M, hM, hg⟩ := colSymbolSet_gapRel col c F h1
+        obtain ⟨ms, hms, hr⟩ := rowOfCols_gapRel cols cs fs h2
+        exact ⟨M :: ms, by simp [rowOfCols, hM, hms], by simp only [List.map_cons, RowRel]; exact ⟨hg, hr⟩⟩
+  | [], _ :: _, _, h => by simp [rowOfCols] at h
+  | _ :: _, [], _, h => by simp [rowOfCols] at h
+
+theorem rowRel_getD : ∀ (qs : List SS) (rF rM : Row), RowRel qs rF rM → ∀ c, GapRel (qs.getD c 0) (rF.getD c 0) (rM.getD c 0)
+  | [], [], [], _, c => by
+    intro s hs; simp at hs
+  | q :: qs, f :: fs, m :: ms, h, c => by
+    simp only [RowRel] at h
+    cases c with
+    | zero => simpa using h.1
+    | succ c => simpa using rowRel_getD qs fs ms h.2 c
+  | [], _ :: _, _, h, _ => by simp [RowRel] at h
+  | [], [], _ :: _, h, _ => by simp [RowRel] at h
+  | _ :: _, [], _, h, _ => by simp [RowRel] at h
+  | _ :: _, _ :: _, [], h, _ => by simp [RowRel] at h
+
+theorem matrixOf_gapRelM (cols : List ColAlph) (n : Nat) : ∀ (rows : List (Nat × List Char)) (mF : Matrix),
+    matrixOf cols false rows = some mF → ∃ mM, matrixOf cols true rows = some mM ∧ GapRelM n (cols.map qOfCol) mF mM
+  | [], mF, h => by
+    simp only [matrixOf, Option.some.injEq] at h
+    subst h
+    exact ⟨[], by simp [matrixOf], fun k rowF hk => by simp [getAttr] at hk⟩
+  | (b, cs) :: rest, mF, h => by
+    simp only [matrixOf] at h
+    cases h1 : rowOfCols cols false cs with
+    | none => simp [h1] at h
+    | some rF =>
+      cases h2 : matrixOf cols false rest with
+      | none => simp [h1, h2] at h
+      | some mF' =>
+        simp only [h1, h2, Option.some.injEq] at h
+        subst h
+        obtain ⟨rM, hrM, hrel⟩ := rowOfCols_gapRel cols cs rF h1
+        obtain ⟨mM', hmM', hrest⟩ := matrixOf_gapRelM cols n rest mF' h2
+        refine ⟨(b, rM) :: mM', by simp [matrixOf, hrM, hmM'], ?_⟩
+        intro k rowF hk
+        simp only [getAttr] at hk ⊢
+        by_cases hb : (b == k) = true
+        · simp only [hb, if_true, Option.some.injEq] at hk ⊢
+          subst hk
+          exact ⟨rM, rfl, fun c _ => rowRel_getD _ _ _ hrel c⟩
+        · simp only [hb] at hk ⊢
+          exact hrest k rowF hk
+
+end Aux
+
+/-- **`gaps_as_missing=True` never scores higher than `gaps_as_missing=False`** (clause a, end to end on the matrices the driver
+builds with `matrixOf` from rows of symbols and column alphabets — fixed alphabets through the generated tables, custom ones through
+`customSet`).  The hypothesis on the columns' proper-state sets holds for every alphabet of the table (`table_gap_ok`) and every
+custom alphabet with a fundamental state (`all_ne_zero`). -/
+theorem gaps_flag_monotone {n : Nat} {cols : List ColAlph} {rows : List (Nat × List Char)} {mF mM : Matrix} {t : T}
+    {bvF : BV} (hF : matrixOf cols false rows = some mF) (hM : matrixOf cols true rows = some mM)
+    (hv : ViewU mF t bvF) (hmF : RectM mF n) (hmM : RectM mM n) (hq : ∀ c, c < n → (cols.map qOfCol).getD c 0 ≠ 0)
+    (hid : (ids t).Nodup) (w : Option (List Nat)) (hw : WOk w n) (attrs attrs' : Attrs) :
+    ∃ stF stM, parsimony mF w attrs t = .ok stF ∧ parsimony mM w attrs' t = .ok stM ∧
+      stM.score ≤ stF.score ∧ ∀ c, c < n → stM.bychar.getD c 0 ≤ stF.bychar.getD c 0 := by
+  obtain ⟨mM', hM', hrel⟩ := matrixOf_gapRelM cols n rows mF hF
+  rw [hM] at hM'
+  cases hM'
+  exact gaps_as_missing_monotone hv hmF hmM hrel hq hid w hw attrs attrs'
+
 /-! ### the hypotheses are satisfiable; the functions compute -/
 
 /-- `((t0,t1),t2)` with two characters -/
@@ -655,5 +1244,28 @@ example : (match parsimony [(0, [1, 3]), (1, [2, 3]), (2, [1, 3])] (some [2]) []
 /-- histories with a failing call (no row for taxon 2) between good ones are inside `history_eq_fresh` -/
 example : (refHist exTree 1 [.score 0 exMatrix none, .score 0 [(0, [1]), (1, [1])] none, .clone 0, .score 1 exMatrix none]).length = 4 := by
   decide
+
+example : (ColAlph.custom true ['0', '1', '2'] [('X', ['0', '2'])]).wf = true := by decide
+example : rowOfCols [.custom false ['0', '1'] [('?', ['0', '1'])], .custom true ['0', '1', '2', '3'] [], .table "dna"] false
+    ['?', '?', '?'] = some [3, 31, 31] := by decide
+
+/-- a star of four leaves under a root with another leaf: polytomies at two levels -/
+def exPoly : T :=
+  .node 0 none none none [.node 1 none none none [.node 2 (some 0) none none [], .node 3 (some 1) none none [],
+                                                  .node 4 (some 2) none none [], .node 5 (some 0) none none []],
+                          .node 6 (some 1) none none [], .node 7 (some 2) none none []]
+example : toBV exMatrix exPoly = some (.node (.node (.node (.node (.node (.leaf [1, 3]) (.leaf [2, 3])) (.leaf [1, 4])) (.leaf [1, 3]))
+    (.leaf [2, 3])) (.leaf [1, 4])) := by rfl
+example : (ids exPoly).Nodup := by decide
+example : (match parsimony exMatrix none [] exPoly with
+    | .ok st => some (st.score, st.bychar) | .error _ => none) = some (4, [2, 2]) := by decide
+
+/-- gaps as a state vs. gaps as missing data, through `matrixOf` -/
+def exCols : List ColAlph := [.table "dna", .custom true ['0', '1', '2'] []]
+def exSyms : List (Nat × List Char) := [(0, ['A', '-']), (1, ['-', '1']), (2, ['C', '-'])]
+example : matrixOf exCols false exSyms = some [(0, [1, 8]), (1, [16, 2]), (2, [2, 8])] := by decide
+example : matrixOf exCols true exSyms = some [(0, [1, 7]), (1, [15, 2]), (2, [2, 7])] := by decide
+example : ∀ c, c < 2 → (exCols.map qOfCol).getD c 0 ≠ 0 := by decide
+example : GapRel 15 16 15 := gapRel_of_gapOkB (by decide)
 
 end DendroModel.C16
